@@ -93,6 +93,42 @@ class _Canon:
             out.append(st)
         return out
 
+    _BIN = {"add": ast.Add, "subtract": ast.Sub, "multiply": ast.Mult, "divide": ast.Div, "true_divide": ast.Div, "power": ast.Pow, "float_power": ast.Pow, "floor_divide": ast.FloorDiv, "matmul": ast.MatMult, "mod": ast.Mod, "remainder": ast.Mod}
+
+    def n8(self, body):
+        """N8: `np.f(a, b, out=z)` (statement, assigned or returned) is `z = a <op> b` - the value that flows is the same; that
+        the array bound to z is written in place is kept as a mark on the statement (`_inplace`) for the ownership rules."""
+        out = []
+        for st in body:
+            call = st.value if isinstance(st, (ast.Expr, ast.Return)) or (isinstance(st, ast.Assign) and len(st.targets) == 1 and isinstance(st.targets[0], ast.Name)) else None
+            if not (isinstance(call, ast.Call) and isinstance(call.func, ast.Attribute) and isinstance(call.func.value, ast.Name)):
+                out.append(st)
+                continue
+            okw = [k for k in call.keywords if k.arg == "out"]
+            tgt = okw[0].value if okw else None
+            if isinstance(tgt, ast.Tuple) and len(tgt.elts) == 1:
+                tgt = tgt.elts[0]
+            if not isinstance(tgt, ast.Name) or any(isinstance(a, ast.Starred) for a in call.args):
+                out.append(st)
+                continue
+            rest = [k for k in call.keywords if k.arg != "out"]
+            fn = call.func.attr
+            if fn in self._BIN and len(call.args) == 2 and not rest:
+                val = ast.BinOp(left=call.args[0], op=self._BIN[fn](), right=call.args[1])
+            elif fn == "negative" and len(call.args) == 1 and not rest:
+                val = ast.UnaryOp(op=ast.USub(), operand=call.args[0])
+            else:
+                val = ast.Call(func=call.func, args=call.args, keywords=rest)
+            new = ast.copy_location(ast.Assign(targets=[ast.Name(id=tgt.id, ctx=ast.Store())], value=ast.copy_location(val, call)), st)
+            new._inplace = tgt.id
+            out.append(new)
+            ref = ast.copy_location(ast.Name(id=tgt.id, ctx=ast.Load()), call)
+            if isinstance(st, ast.Return):
+                out.append(ast.copy_location(ast.Return(value=ref), st))
+            elif isinstance(st, ast.Assign) and st.targets[0].id != tgt.id:
+                out.append(ast.copy_location(ast.Assign(targets=st.targets, value=ref), st))
+        return out
+
     # ---- helpers over the whole function ------------------------------------------------------------------------
     def count_loads(self, name, exclude=()):
         return sum(1 for n in ast.walk(self.fn) if isinstance(n, ast.Name) and n.id == name and isinstance(n.ctx, ast.Load) and not any(n is x for x in exclude))
@@ -111,6 +147,7 @@ class _Canon:
     # ---- statement lists -------------------------------------------------------------------------------------------
     def block(self, body):
         body = [self.stmt(s) for s in body]
+        body = self.n8(body)
         body = self.n3(body)
         body = self.n7(body)
         body = self.n4a(body)
